@@ -203,6 +203,213 @@ def mk(nw=3):
     return f
 
 
+class Lease(asynq.AsyncContext):
+    """a context whose k-th resume raises; once that happened its pause raises as well (so closing the suspended
+    body raises)"""
+
+    def __init__(self, k, pause_too):
+        self.n = 0
+        self.k = k
+        self.pause_too = pause_too
+        self.failed = False
+
+    def resume(self):
+        self.n += 1
+        if self.n == self.k:
+            self.failed = True
+            raise prog.E(("lease", "resume"))
+
+    def pause(self):
+        if self.failed and self.pause_too:
+            raise prog.E(("lease", "pause"))
+
+
+def f_abnormal(cal, ncallers, k, pause_too, inner, kk, a, p0, p1):
+    """the single execution ends abnormally - a context of the body cannot be resumed after a flush, and (pause_too)
+    closing the suspended body raises as well: the key is free again afterwards, the next call runs the body"""
+    calv, nc, kv, pt, inn, kkv = conc(cal, 3), 1 + conc(ncallers, 2), 2 + conc(k, 2), concb(pause_too), concb(inner), conc(kk, 2)
+    av = conc(a, 2)
+    rec.clear_fail()
+    prog.reset_globals()
+    rt = RT(nkinds=2, prio=[p0, p1], hash_order=0)
+    count = [0]
+    lease_on = [True]
+
+    def body(tag, a):
+        count[0] += 1
+        if lease_on[0]:
+            with Lease(kv, pt):
+                x = yield HItem(rt, kkv, a, "ok", "ab%d" % len(rt.items))
+                if inn:
+                    with Lease(9, False):
+                        y = yield HItem(rt, 1 - kkv, a, "ok", "ab%d" % len(rt.items))
+                else:
+                    y = yield HItem(rt, 1 - kkv, a, "ok", "ab%d" % len(rt.items))
+        else:
+            x = yield HItem(rt, kkv, a, "ok", "ab%d" % len(rt.items))
+            y = x
+        return [tag, a, x, y]
+
+    @deduplicate()
+    @A()
+    def dd(a):
+        return (yield from body("f", a))
+
+    class K(object):
+        @deduplicate()
+        @A()
+        def m(self, a):
+            return (yield from body("m", a))
+
+        @deduplicate()
+        @A()
+        @staticmethod
+        def s(a):
+            return (yield from body("s", a))
+
+    kobj = K()
+    fn = [dd, kobj.m, kobj.s][calv]
+    res = {}
+
+    @A()
+    def worker(i):
+        try:
+            res[i] = ("v", (yield fn.asynq(av)))
+        except prog.E as e:
+            res[i] = ("e", e)
+
+    @A()
+    def root():
+        yield [worker.asynq(i) for i in range(nc)]
+
+    try:
+        rt.attach()
+        try:
+            root()
+        except Exception as e:
+            prog.reraise_control(e)
+            rec.wit("root_failed")
+        if count[0] != 1:
+            return rec.fail("%d callers of one key: the body ran %d times" % (nc, count[0]))
+        if asynq.tools.DeduplicateDecorator.tasks:
+            return rec.fail("after the only execution ended abnormally (context resume #%d raised%s) the deduplication "
+                            "table still holds its task: %d entries" % (
+                                kv, ", closing the body raised too" if pt else "",
+                                len(asynq.tools.DeduplicateDecorator.tasks)))
+        lease_on[0] = False
+        t = fn.asynq(av)
+        if t.is_computed():
+            return rec.fail("the call after the abnormal end returned a finished task")
+        v = t.value()
+        if count[0] != 2 or v[1] != av:
+            return rec.fail("the call after the abnormal end did not run the body again (runs %d, value %r)" % (count[0], v))
+        if asynq.tools.DeduplicateDecorator.tasks:
+            return rec.fail("deduplication table not empty at the end")
+        rec.wit("paths")
+        if any(o[0] == "e" for o in res.values()):
+            rec.wit("callers_saw_error")
+        rec.done(("c12ab", calv, nc, kv, pt, inn, kkv), True)
+        return True
+    finally:
+        asynq.tools.DeduplicateDecorator.tasks.clear()
+        prog.detach(rt)
+        prog.reset_globals()
+
+
+def f_xthread(cal, where, sp, a, b, again_sp):
+    """a task created on one thread and completed on another one: the creating thread's key is free afterwards;
+    meanwhile the other thread's own call with the same arguments is a different execution (the thread is part
+    of the key)"""
+    import threading
+    calv, wv, spv, av, bv, asv = conc(cal, 4), conc(where, 3), conc(sp, 5), conc(a, 2), conc(b, 2), conc(again_sp, 5)
+    rec.clear_fail()
+    prog.reset_globals()
+    count = {}
+
+    def body(tag, a, b, c):
+        count[(tag, a, b, c)] = count.get((tag, a, b, c), 0) + 1
+        x = yield asynq.ConstFuture(a)
+        return [tag, x, b, c]
+
+    @deduplicate()
+    @A()
+    def dd(a, b=1, *, c=2):
+        return (yield from body("f", a, b, c))
+
+    class K(object):
+        @deduplicate()
+        @A()
+        def m(self, a, b=1, *, c=2):
+            return (yield from body("m", a, b, c))
+
+        @deduplicate()
+        @A()
+        @staticmethod
+        def s(a, b=1, *, c=2):
+            return (yield from body("s", a, b, c))
+
+    k1, k2 = K(), K()
+    fn = [dd, k1.m, k1.s, k2.m][calv]
+    tag = ["f", "m", "s", "m"][calv]
+    key = (tag, av, bv, 2)
+    box = {}
+
+    def on_thread(thunk):
+        def run():
+            try:
+                box["r"] = ("v", thunk())
+            except BaseException as e:      # noqa
+                box["r"] = ("e", e)
+        th = threading.Thread(target=run)
+        th.start()
+        th.join()
+        r = box.pop("r")
+        if r[0] == "e":
+            raise r[1]
+        return r[1]
+
+    try:
+        t = spell(fn.asynq, spv, av, bv, 2)
+        if wv == 0:
+            v = t.value()
+        elif wv == 1:
+            v = on_thread(t.value)
+        else:
+            # the other thread first makes its own call with the same arguments, then completes ours
+            def other():
+                t2 = spell(fn.asynq, spv, av, bv, 2)
+                if t2 is t:
+                    raise AssertionError("shared across threads")
+                v2 = t2.value()
+                return t.value(), v2
+            try:
+                v, v2 = on_thread(other)
+            except AssertionError:
+                return rec.fail("a call on another thread received the task created for this thread")
+            if v2 is v:
+                return rec.fail("executions of two threads returned the same object")
+        if v != [tag, av, bv, 2]:
+            return rec.fail("value %r for key %r" % (v, key))
+        t3 = spell(fn.asynq, asv, av, bv, 2)
+        if t3 is t or t3.is_computed():
+            return rec.fail("the task for key %r was created on this thread and completed %s; the next call on this "
+                            "thread returned the finished task instead of running the body again" % (
+                                key, ["here", "on another thread", "on another thread"][wv]))
+        before = count.get(key, 0)
+        t3.value()
+        if count.get(key, 0) != before + 1:
+            return rec.fail("next call for key %r did not run the body" % (key,))
+        if asynq.tools.DeduplicateDecorator.tasks:
+            return rec.fail("deduplication table still holds %d entries after everything completed" % len(
+                asynq.tools.DeduplicateDecorator.tasks))
+        rec.wit("paths")
+        rec.done(("c12xt", calv, wv, spv, av, bv, asv), True)
+        return True
+    finally:
+        asynq.tools.DeduplicateDecorator.tasks.clear()
+        prog.reset_globals()
+
+
 PAIRS = [(0, 0), (0, 4), (1, 1), (1, 2), (3, 3), (0, 3), (2, 2), (4, 4)]
 
 
@@ -241,6 +448,14 @@ def conds(tier):
         out.append(Cond("three_q", mk(3), ps, pin=6, builds=("C",), budget=200,
                         family="three callers of one key: delays x dirty() flags, symbolic schedule (a later caller "
                                "after dirty() + re-creation)", encodes=ENC))
+    out.append(Cond("abnormal", f_abnormal, [I("cal", 0, 2), I("ncallers", 0, 1), I("k", 0, 1), B("pause_too"), B("inner"),
+                                             I("kk", 0, 1), I("a", 0, 1), I("p0"), I("p1")], pin=2, builds=("C", "P"),
+                    budget=100, family="the only execution ends abnormally (a context of the body fails to resume "
+                    "after a flush; closing the suspended body may raise too): key free afterwards", encodes=ENC))
+    out.append(Cond("xthread", f_xthread, [I("cal", 0, 3), I("where", 0, 2), I("sp", 0, 4), I("a", 0, 1), I("b", 0, 1),
+                                           I("again_sp", 0, 4)], pin=2, builds=("C",), budget=100,
+                    family="task created on one thread, completed on the same / another thread (which may make its own "
+                           "call with the same arguments first): key free afterwards", encodes=ENC))
     if not q:
         ps = [I("cal0", 0, 1), I("sp0", 0, 1), I("a0", 1, 1), I("b0", 1, 1), I("c0", 0, 0), I("dl0", 0, 2), B("dirty0")]
         for i in (1, 2):
